@@ -3,6 +3,7 @@ concrete instances, many over the regenerated tables, and must not be able to st
 building).  Not property theorems: the check builds this module separately and only records the outcome. -/
 import Barril.Props.C13
 import Barril.Proofs.HeapEval
+import Barril.Gen.Dbs
 
 namespace Barril.Heap
 open Barril
@@ -91,6 +92,35 @@ example :
     let outs := outputs exDbLim St.empty ops
     s.heap[0]? = some (.seq .ndarray [3, 1, 2]) ∧ s.objs[0]? = some (.array 0 0) ∧ outIs outs[2]? .unit ∧
     outIs outs[3]? (.bool true) ∧ outIs outs[4]? (.raised .value) ∧ s.valid = [(1, some .value), (0, none)] := by
+  decide +kernel
+
+/-- the hypothesis `hz` of the full-strength pickle theorems (no category is named `''`) holds for the shipped POSC
+table and for the example database -/
+example : Barril.Gen.poscDb.catByName 0 = none := by decide +kernel
+example : exDb.catByName 0 = none := by decide +kernel
+
+/-- the hypotheses of `pickle_scalar_eq_reachable` / `pickle_fixedarray_eq_reachable` are met by real histories:
+after building `2 m / 3 s` the pool member 2 has a snapshot on a DERIVED quantity and its pickle succeeds; the same
+for a FixedArray on `m2`, for the empty quantity and for an unknown-unit caption -/
+example :
+    let s := run exDb St.empty [Op.mkScalar 2 exM exLength, .mkScalar 3 exS exTime, .arith .div (.obj 0) (.obj 1),
+                                .mkFixed 2 .tuple [1, 2] exM exLength, .arith .mul (.obj 3) (.obj 3),
+                                .mkEmptyScalar 2, .mkCaptionScalar 3 exM exCap]
+    (snap s 2).isSome ∧ (exec exDb (.pickle 2) s).toOption.isSome ∧
+    (snap s 4).isSome ∧ (exec exDb (.pickle 4) s).toOption.isSome ∧
+    (snap s 5).isSome ∧ (exec exDb (.pickle 5) s).toOption.isSome ∧
+    (snap s 6).isSome ∧ (exec exDb (.pickle 6) s).toOption.isSome := by
+  decide +kernel
+
+/-- `x ** 3` (Scalar.__pow__): two `Multiply` steps on copies (`8 m3`), `x` still `2 m`; `x ** 1` and `x ** 0` ARE
+`x` (no new pool member); an Array has no `__pow__` -/
+example :
+    let ops := [Op.mkScalar 2 exM exLength, .pow 0 3, .pow 0 1, .pow 0 0, .mkArray .list [1, 2] exM exLength, .pow 2 2]
+    let s := run exDb St.empty ops
+    let outs := outputs exDb St.empty ops
+    snap s 0 = some (.scalar ⟨[(exLength, exM, 1)], 0, false, [(exLength, exM, 1)]⟩ 2) ∧
+    snap s 1 = some (.scalar ⟨[(exLength, exM, 3)], 0, true, [(exLength, exM, 3)]⟩ 8) ∧
+    outIs outs[2]? (.obj 0 false) ∧ outIs outs[3]? (.obj 0 false) ∧ errIs outs[5]? .type ∧ s.objs.length = 3 := by
   decide +kernel
 
 end Barril.Heap
